@@ -388,6 +388,14 @@ enum NSpec {
     Single { which: u16 },
     Run { which: u16, len: u16 },
     Doubled { start: u16, len: u16 },
+    /// exactly one record
+    Record { r: u16 },
+    /// the first / last symbols of one record (starts at a record start / ends at a record end)
+    RecordEdge { r: u16, len: u16, tail: bool },
+    /// from inside record i-1, over all of record i, into record i+1 (two boundaries)
+    CrossTwo { r: u16, before: u16, after: u16 },
+    /// from before the last boundary to the end of the text
+    CrossToEnd { before: u16 },
 }
 
 fn nspec() -> BoxedStrategy<NSpec> {
@@ -408,6 +416,10 @@ fn nspec() -> BoxedStrategy<NSpec> {
         3 => u().prop_map(|which| NSpec::Single { which }),
         2 => (u(), u()).prop_map(|(which, len)| NSpec::Run { which, len }),
         1 => (u(), u()).prop_map(|(start, len)| NSpec::Doubled { start, len }),
+        1 => u().prop_map(|r| NSpec::Record { r }),
+        1 => (u(), u(), any::<bool>()).prop_map(|(r, len, tail)| NSpec::RecordEdge { r, len, tail }),
+        1 => (u(), u(), u()).prop_map(|(r, before, after)| NSpec::CrossTwo { r, before, after }),
+        1 => u().prop_map(|before| NSpec::CrossToEnd { before }),
     ]
     .boxed()
 }
@@ -454,6 +466,8 @@ fn realise_needle(spec: &NSpec, text: &[u32], boundaries: &[usize], distinct: &[
         text[s..s + l].to_vec()
     };
     let sym = |which: u16| -> u32 { if distinct.is_empty() { 1 } else { distinct[sel(which, distinct.len())] } };
+    // `[start, limit)` of record `r` (boundaries are valid here)
+    let record_span = |r: usize| -> (usize, usize) { (boundaries[r], if r + 1 < boundaries.len() { boundaries[r + 1] } else { n }) };
     let abs = |which: u16| -> u32 { absent[sel(which, absent.len())] };
     let (kind, syms): (&str, Vec<u32>) = match spec {
         NSpec::Sub { start, len, maxlen } => ("substring", sub(*start, *len, *maxlen)),
@@ -503,6 +517,46 @@ fn realise_needle(spec: &NSpec, text: &[u32], boundaries: &[usize], distinct: &[
             d.extend(s);
             ("doubled-substring", d)
         }
+        NSpec::Record { r } => {
+            if n > 0 && !boundaries.is_empty() {
+                let (lo, hi) = record_span(sel(*r, boundaries.len()));
+                ("whole-record", text[lo..hi].to_vec())
+            } else {
+                ("whole-text", text.to_vec())
+            }
+        }
+        NSpec::RecordEdge { r, len, tail } => {
+            if n > 0 && !boundaries.is_empty() {
+                let (lo, hi) = record_span(sel(*r, boundaries.len()));
+                let l = 1 + sel(*len, (hi - lo).min(8));
+                if *tail { ("record-suffix", text[hi - l..hi].to_vec()) } else { ("record-prefix", text[lo..lo + l].to_vec()) }
+            } else {
+                ("substring", sub(*r, *len, 8))
+            }
+        }
+        NSpec::CrossTwo { r, before, after } => {
+            // prefer a short middle record so that the needle stays short
+            let nb = boundaries.len();
+            if nb >= 3 && n > 0 {
+                let pick = 1 + sel(*r, nb - 2);
+                let mid = (pick..nb - 1).chain(1..pick).find(|i| record_span(*i).1 - record_span(*i).0 <= 48).unwrap_or(pick);
+                let (lo, hi) = record_span(mid);
+                let lo = lo - (1 + sel(*before, (lo - record_span(mid - 1).0).min(4)));
+                let hi = hi + 1 + sel(*after, (record_span(mid + 1).1 - hi).min(4));
+                ("across-two-record-boundaries", text[lo..hi].to_vec())
+            } else {
+                ("substring", sub(*r, *before, 8))
+            }
+        }
+        NSpec::CrossToEnd { before } => {
+            if boundaries.len() >= 2 && n > 0 {
+                let last = boundaries[boundaries.len() - 1];
+                let lo = last - (1 + sel(*before, (last - boundaries[boundaries.len() - 2]).min(6)));
+                ("across-last-boundary-to-text-end", text[lo..].to_vec())
+            } else {
+                ("suffix", if n == 0 { vec![] } else { text[n - 1 - sel(*before, n)..].to_vec() })
+            }
+        }
     };
     Needle { kind: kind.to_string(), syms }
 }
@@ -529,15 +583,17 @@ pub fn text_strategy(max_len: usize, max_alpha: usize) -> BoxedStrategy<(String,
 }
 
 pub fn doc_case(max_len: usize) -> BoxedStrategy<DocCase> {
-    text_strategy(max_len, 4000)
-        .prop_flat_map(|(alpha, class, text)| {
-            (
-                Just((alpha, class, text)),
-                bspec(),
-                prop::collection::vec(nspec(), 8..=14),
-                prop::collection::vec(any::<u16>(), 24),
-            )
-        })
+    text_strategy(max_len, 4000).prop_flat_map(|(alpha, class, text)| doc_case_from_text(alpha, class, text)).boxed()
+}
+
+/// Boundaries, needles and probes for a given text.
+pub fn doc_case_from_text(alpha: String, class: String, text: Vec<u32>) -> BoxedStrategy<DocCase> {
+    (
+        Just((alpha, class, text)),
+        bspec(),
+        prop::collection::vec(nspec(), 8..=14),
+        prop::collection::vec(any::<u16>(), 24),
+    )
         .prop_map(|((alpha, class, text), bs, ns, probes)| {
             let (bclass, boundaries) = realise_boundaries(&bs, text.len());
             let distinct = distinct_symbols(&text);
